@@ -71,6 +71,7 @@ class Spec:
         # trace partitioning at loop heads: one invariant per combination of these small flag values
         # (12-hour/24-hour/meridian bookkeeping of the parser); a precision hint, sound whatever it lists
         self.partition_types = {'std::option::Option<bool>', 'std::option::Option<format::AmPm>'}
+        self.partition_nested_bools = True      # sign flag of the record being parsed
         self.d2j_range = (JULIAN_MIN - 400, JULIAN_MAX + 400)
         self.field_ty = self._find_field_ty()
 
@@ -230,6 +231,28 @@ class Spec:
             fs[idx[nm]] = interp.fresh_int(st, f.ty, f"dt.{nm}", lo, hi)
         return [VAdt(v.ty, {0: tuple(fs)})]
 
+    def internal_variants(self, key):
+        """case split of the precondition: for the year-month interval the sign flag and the sign of the parsed
+        year agree (the parser sets both from one signed number)"""
+        if key.startswith('<interval::IntervalYM as '):
+            return ['negative=false', 'negative=true']
+        return [None]
+
+    def apply_internal_variant(self, interp, st, args, variant):
+        if variant is None:
+            return args
+        v = args[0]
+        idx = self.ndt_fields(v)
+        fs = list(v.variants[0])
+        neg = variant.endswith('true')
+        fs[idx['negative']] = VBool(neg)
+        y = fs[idx['year']]
+        if neg:
+            st.num.add_fact(y.form)
+        else:
+            st.num.add_fact(y.form.neg())
+        return [VAdt(v.ty, {0: tuple(fs)})]
+
     def call_override(self, interp, st, key, args):
         if self.is_assembly(key) and st.stack and not self.inline_assembly:
             v = args[0]
@@ -247,6 +270,17 @@ class Spec:
                     if a < lo or b > hi:
                         ok, detail = False, f"dt.{nm} = {f.form!r} in [{a}, {b}] must be within [{lo}, {hi}]"
                         break
+                if ok and key.startswith('<interval::IntervalYM as '):
+                    ng = fs[idx['negative']]
+                    yl, yh = st.num.rng(fs[idx['year']].form)
+                    if isinstance(ng, VBool) and ng.val is True:
+                        ok = yh <= 0
+                    elif isinstance(ng, VBool) and ng.val is False:
+                        ok = yl >= 0
+                    else:
+                        ok = yl == 0 == yh
+                    if not ok:
+                        detail = f"sign flag {ng!r} and parsed year in [{yl}, {yh}] must agree"
             self.pre_ob(interp, st, key, ok, detail)
             # remember which fields of the record depend on the clock (C18)
             if isinstance(v, VAdt):
